@@ -53,7 +53,7 @@ def _inc_line(ctx, fname, sym):
     if sym:
         kw = ctx.chars("kw", 7, ["iI", "nN", "cC", "lL", "uU", "dD", "eE"])
         q = ctx.chars("q", 1, "'\"")
-        sp = " " * (1 + ctx.choose("sp", 2))
+        sp = " " * ctx.choose("sp", 3)        # 0, 1 or 2 blanks between INCLUDE and the file name
         return "  " + kw + sp + q + fname + q
     return "  include '" + fname + "'"
 
